@@ -1,0 +1,31 @@
+//! Verification hooks. Only compiled with `--cfg nucleo_verif`; never part of a normal build.
+
+use crate::chars::AsciiChar;
+use crate::Matcher;
+
+/// `(offset from the slab base in bytes, size in bytes, alignment of the element type)`
+pub type ViewExtent = (isize, usize, usize);
+
+impl Matcher {
+    /// Runs the real `MatrixSlab::alloc` for a code-point haystack and reports the size of the
+    /// slab and where each of the five views (haystack, bonus, row offsets, current row, matrix
+    /// cells) lies relative to its base. `None` if `alloc` refuses the shape.
+    pub fn verif_alloc_extents_unicode(
+        &mut self,
+        haystack: &[char],
+        needle_len: usize,
+    ) -> Option<(usize, [ViewExtent; 5])> {
+        self.slab.verif_alloc_extents(haystack, needle_len)
+    }
+
+    /// Same as [`verif_alloc_extents_unicode`](Matcher::verif_alloc_extents_unicode) for an
+    /// ASCII haystack.
+    pub fn verif_alloc_extents_ascii(
+        &mut self,
+        haystack: &[u8],
+        needle_len: usize,
+    ) -> Option<(usize, [ViewExtent; 5])> {
+        self.slab
+            .verif_alloc_extents(AsciiChar::cast(haystack), needle_len)
+    }
+}
